@@ -92,6 +92,13 @@ def run(res, replay=None):
         for n0, n1, t1 in ((4.0, 0.25, '1.0'), (0.5, 8.0, '0.5')):
             cases.append({'spec': {'n_items': [['a', 3]], 'model': {'kind': 'kingman'}, 'pop_sizes': {'a': {'0.0': n0, t1: n1}}},
                           'c': 2.0 ** 3, 'regularize_check': False})
+    # designed: DISCRETISED demographies (exponential growth; the grid of change times is computed, not given) under non-dyadic changes of
+    # the time unit towards small and large units - an absolute resolution anywhere in the grid computation breaks the law only here
+    if not replay:
+        for kind, c in (('kingman', 1 / 317), ('beta', 1 / 53), ('dirac', 1 / 90000), ('kingman', 317.0)) if res.tier == 'quick' else \
+                (('kingman', 1 / 317), ('beta', 1 / 53), ('dirac', 1 / 90000), ('kingman', 317.0), ('beta', 53.0), ('dirac', 977.0), ('kingman', 1 / 7919)):
+            cases.append({'spec': {'n_items': [['pop_0', 4]], 'model': {'kind': kind}, 'pop_sizes': {'pop_0': {'0.0': 8.0}}}, 'c': c,
+                          'exp_growth': kind, 'regularize_check': False})
     # deterministic probe of the known finding D16 (float accuracy of the default pipeline on one two-deme configuration with a
     # 2^15-fold size increase: the law holds to about 4e-9 only); identified by this exact configuration and statistic
     if not replay:
